@@ -544,7 +544,8 @@ def model_line(samples, rec):
 
 def parse_model(out):
     toks = out.split()
-    assert toks and toks[0] == "Z", out[:80]
+    if not (toks and toks[0] == "Z"):
+        raise RuntimeError(out[:80])
     i = 1
     zcs = []
     while i < len(toks) and toks[i] != "P":
@@ -552,7 +553,8 @@ def parse_model(out):
         i += 1
     passes = []
     while i < len(toks):
-        assert toks[i] == "P"
+        if not (toks[i] == "P"):
+            raise RuntimeError('toks[i] == "P"')
         rise, fall, mid, lo, hi, culm, s0, s1 = toks[i + 1:i + 9]
         passes.append({"rise": lib.h2f(rise), "fall": lib.h2f(fall), "middle": int(mid), "lo": lib.h2f(lo), "hi": lib.h2f(hi),
                        "culm": lib.h2f(culm), "lo_bits": lo, "hi_bits": hi, "int_start": int(s0), "int_end": int(s1)})
